@@ -280,11 +280,18 @@ class FormulaTransformer(m.MatcherDecoratableTransformer):
         self.attr_stack.pop()
         return updated_node
 
+    def is_arg_keyword(self, node: cst.Name):
+        parent = self.get_metadata(ParentNodeProvider, node)
+        return isinstance(parent, cst.Arg) and parent.keyword is node
+
     def leave_Name(
         self, original_node: "Name", updated_node: "Name"
     ) -> "BaseExpression":
 
         if original_node == self.topfunc_name:
+            return updated_node
+        elif self.is_arg_keyword(original_node):
+            # Keyword of a call argument such as y in foo(x, y=1)
             return updated_node
         elif self.attr_stack and self.attr_stack[-1] == original_node:
             # Do nothing if node is an attribute of another name
